@@ -64,17 +64,17 @@ Print Assumptions C07_decode_injective.
    for every character that is not (non-letter member)+32 ... *)
 Theorem C07_lookup_pinned_partial :
   forall al c, alpha_ok al -> shadow al c = false ->
-    s_prep (Alpha al) c = option_map (decode1 (Alpha al)) (m_prep (Alpha al) c).
+    s_prep (Alpha al) c = option_map (decode1 (Alpha al)) (m_prep_pinned (Alpha al) c).
 Proof. exact prep_head_partial. Qed.
 Print Assumptions C07_lookup_pinned_partial.
 (* ... and not for such a character (DigitEncoding, 'P'): the finding of C06 *)
 Theorem C07_lookup_pinned_refuted :
-  exists al c, alpha_ok al /\ s_prep (Alpha al) c <> option_map (decode1 (Alpha al)) (m_prep (Alpha al) c).
+  exists al c, alpha_ok al /\ s_prep (Alpha al) c <> option_map (decode1 (Alpha al)) (m_prep_pinned (Alpha al) c).
 Proof. exact prep_head_refuted. Qed.
 Print Assumptions C07_lookup_pinned_refuted.
 (* the repaired table: every character *)
 Theorem C07_lookup_fixed :
-  forall al c, alpha_ok al -> s_prep (Alpha al) c = option_map (decode1 (Alpha al)) (m_prep_fixed (Alpha al) c).
+  forall al c, alpha_ok al -> s_prep (Alpha al) c = option_map (decode1 (Alpha al)) (m_prep (Alpha al) c).
 Proof. exact prep_fixed_full. Qed.
 Print Assumptions C07_lookup_fixed.
 
@@ -99,7 +99,7 @@ Theorem C07_program_pinned_partial :
     match e with Base => True | Alpha al => alpha_ok al end -> enc_of v = e ->
     Forall (fun o => (forall c, In c (op_chars o) -> match e with Base => True | Alpha al => shadow al c = false end)
                      /\ o <> SArr) ops ->
-    map_run (decode1 e) (g_run (model_prims_with m_prep vr) v saved ops)
+    map_run (decode1 e) (g_run (model_prims_with m_prep_pinned vr) v saved ops)
     = s_run (mapv (decode1 e) v) (option_map (mapv (decode1 e)) saved) ops.
 Proof. exact program_head_partial. Qed.
 Print Assumptions C07_program_pinned_partial.
@@ -108,7 +108,7 @@ Theorem C07_program_fixed :
   forall vr e ops v saved,
     match e with Base => True | Alpha al => alpha_ok al end -> enc_of v = e ->
     Forall (fun o => o <> SArr) ops ->
-    map_run (decode1 e) (g_run (model_prims_with m_prep_fixed vr) v saved ops)
+    map_run (decode1 e) (g_run (model_prims_with m_prep vr) v saved ops)
     = s_run (mapv (decode1 e) v) (option_map (mapv (decode1 e)) saved) ops.
 Proof. exact program_fixed_full. Qed.
 Print Assumptions C07_program_fixed.
